@@ -300,6 +300,17 @@ def dasl_cases(q):
                 yield {'k': 'dasl', 'cpu': cpu, 'img': [b0, x, 0x00]}
         for n in range(0, 3):
             yield {'k': 'dasl', 'cpu': cpu, 'img': [0x20] * n}
+        # entry addresses read from a vector in the image: at the start, the end and across the end, every length and order
+        for va in (256, 258, 259, 260, 100):
+            for ln in ('', ',1', ',2', ',3', ',8', ',9', ',0'):
+                for en in ('', ',msb', ',lsb', ',xsb'):
+                    if en and not ln:
+                        continue
+                    for nm in ('', ',foo'):
+                        for img in ([0x01, 0x01, 0x01, 0x01], [0x01, 0x00, 0x01, 0x02]):
+                            yield {'k': 'dasl', 'cpu': cpu, 'img': img, 'entry': '(%d%s%s)%s' % (va, ln, en, nm)}
+        for e in ('(', '()', '(256', '256)', ',', ',foo', '(256,2),', '((256))', '(,2)', '(256,,lsb)', '(256,2,lsb,x)', '0x100', '$100', '-1', '(-1,2)'):
+            yield {'k': 'dasl', 'cpu': cpu, 'img': [0x01, 0x01, 0x01, 0x01], 'entry': e}
 
 
 def describe(case):
@@ -478,12 +489,12 @@ def evaluate(case):
         def run(v, to=4):
             core.fresh()
             core.put('i.bin', img)
-            return core.run('dasl', ['-cpu', case['cpu'], '-binfile', 'i.bin@256', '-entryaddress', '256'], variant=v, timeout=to, maxout=1 << 16)
+            return core.run('dasl', ['-cpu', case['cpu'], '-binfile', 'i.bin@256', '-entryaddress', case.get('entry', '256')], variant=v, timeout=to, maxout=1 << 16)
         o = run('asan')
-        grp = 'tool/dasl/' + case['cpu']
+        grp = 'tool/dasl/' + case['cpu'] + ('/entry-vector' if 'entry' in case else '')
         if case['cpu'] == '87C00' and len(img) >= 2 and 0xec <= img[0] <= 0xef and img[1] == 0xfe:
             grp += '/relative-jump-to-itself'
-        r = finish(run, o, TOOL_OK, 'dasl -cpu %s on image %s' % (case['cpu'], img.hex()), grp)
+        r = finish(run, o, TOOL_OK | {4}, 'dasl -cpu %s -entryaddress %s on image %s' % (case['cpu'], case.get('entry', '256'), img.hex()), grp, big_ok=False)
         return r or core.R(True, 'rc%s' % o.rc, nontrivial=True, states=['dasl%d' % o.rc])
     raise ValueError(k)
 
